@@ -45,115 +45,7 @@ def run(ctx, chk):
                         "the induction from A/B/C to 'any rule-following history is leak- and double-free-free' is an argument"]
 
     # ---- (A) contracts -----------------------------------------------------
-    nA = 0
-    for name, takes in O.TAKES_REF.items():
-        f = prog.fn(name)
-        where = "%s:%d" % (f.file, f.line)
-        for j, how in takes.items():
-            A = ("arg", j)
-            for k, pa in enumerate(cache.get(name)):
-                eff_n = 0
-                cond = []
-                stores = 0
-                for e in pa.events:
-                    if e.kind == "call" and e.ckind == "lib":
-                        if e.callee == "cbor_incref" and e.args[0] == A:
-                            eff_n += 1
-                        elif e.callee in ("cbor_move", "cbor_intermediate_decref") and e.args[0] == A:
-                            eff_n -= 1
-                        elif e.callee == "cbor_decref" and e.extra and e.extra["pointee"][0] == A:
-                            eff_n -= 1
-                        elif e.callee in O.TAKES_REF:
-                            for kk, hh in O.TAKES_REF[e.callee].items():
-                                if kk < len(e.args) and e.args[kk] == A:
-                                    if hh == "always":
-                                        eff_n += 1
-                                        stores += 1
-                                    elif _truth(pa.st, e.res) is True or (hh == "nonnull" and pa.st.known_nonnull(e.res)):
-                                        eff_n += 1
-                                        stores += 1
-                                    elif _truth(pa.st, e.res) is False or (hh == "nonnull" and pa.st.known_null(e.res)):
-                                        pass
-                                    else:
-                                        cond.append(e.res)
-                    elif e.kind == "store" and (e.args[1] == A or _alias_of(pa, e.args[1]) == A):
-                        if ptr_key(e.args[0])[0][0] != "alloca":
-                            stores += 1
-                    elif e.kind == "store" and ptr_key(e.args[0])[0] == A:
-                        d_ = O.refcount_delta(off["refcount"], e)
-                        if d_ is not None:
-                            eff_n += d_   # incref / move written out as a field update
-                # classify outcome
-                if how == "always":
-                    success = True
-                elif how == "bool":
-                    success = True if pa.ret == ("c", 1) else (False if pa.ret == ("c", 0) else None)
-                    if success is None and isinstance(pa.ret, tuple) and pa.ret[0] == "call" and pa.ret[1] in prog.funcs:
-                        # delegated to a callee that cannot fail (all of its paths return true)
-                        if all(q.ret == ("c", 1) for q in cache.get(pa.ret[1])):
-                            success = True
-                            cond = [c for c in cond if c != pa.ret]
-                            if any(e.kind == "call" and e.res == pa.ret and any(kk < len(e.args) and e.args[kk] == A for kk in O.TAKES_REF.get(e.callee, {}))
-                                   for e in pa.events):
-                                eff_n += 1
-                                stores += 1
-                else:
-                    success = False if pa.ret == ("c", 0) else True
-                nA += 1
-                inst = "%s(arg %d) path %d" % (name, j, k)
-                if success is None:
-                    # result delegated to a nested operation: effect must be exactly that operation's conditional +1
-                    ok = cond == [pa.ret] and eff_n in (0,) or (not cond and False)
-                    # a preceding successful step for another argument (cbor_map_add: key added, value delegated) is fine
-                    chk.ob("C04.contract", inst + ": delegates success to a nested insert", ok, where, fn=name, key="%s:%d:deleg" % (name, j),
-                           detail="" if ok else "unconditional effect %+d, conditional on %s, returns %r" % (eff_n, cond, pa.ret))
-                elif success:
-                    ok = eff_n == 1 and not cond and stores == 1
-                    chk.ob("C04.contract", inst + ": success takes exactly one reference and one slot", ok, where, fn=name,
-                           key="%s:%d:succ:%d" % (name, j, k),
-                           detail="" if ok else "net refcount effect %+d, stored into %d slot(s)" % (eff_n, stores),
-                           path=pa.block_lines() if not ok else None)
-                else:
-                    ok = eff_n == 0 and not cond and stores == 0
-                    chk.ob("C04.contract", inst + ": failure leaves the argument untouched", ok, where, fn=name,
-                           key="%s:%d:fail:%d" % (name, j, k),
-                           detail="" if ok else "net refcount effect %+d, stored into %d slot(s) although failure is reported" % (eff_n, stores),
-                           path=pa.block_lines() if not ok else None)
-    # replace: displaced element released once on success
-    f = prog.fn("cbor_array_replace")
-    for k, pa in enumerate(cache.get("cbor_array_replace")):
-        if pa.ret != ("c", 1):
-            continue
-        rel = [e for e in pa.calls("cbor_intermediate_decref")] + [e for e in pa.calls("cbor_decref")]
-        slot_stores = [e for e in pa.events if e.kind == "store" and e.args[1] != ("c", 0) and ptr_key(e.args[0])[0][0] == "idx"]
-        ok = len(rel) == 1 and len(slot_stores) == 1
-        if ok:
-            # the released value was loaded from the very slot that is overwritten
-            r = rel[0].args[0]
-            ok = r[0] == "ld" and r[1] == ptr_key(slot_stores[0].args[0])[0]
-        chk.ob("C04.contract", "cbor_array_replace path %d: displaced element released exactly once" % k, ok, "%s:%d" % (f.file, f.line),
-               fn=f.name, key="replace:%d" % k)
-        nA += 1
-    # getters
-    for name in GETTERS_OWNED:
-        f = prog.fn(name)
-        for k, pa in enumerate(cache.get(name)):
-            incs = pa.calls("cbor_incref")
-            if pa.ret == ("c", 0):
-                ok = not incs
-                chk.ob("C04.contract", "%s path %d: refusal takes no reference" % (name, k), ok, "%s:%d" % (f.file, f.line), fn=name,
-                       key="%s:null:%d" % (name, k))
-            else:
-                ok = len(incs) == 1 and pa.ret == incs[0].res and incs[0].args[0][0] == "ld"
-                if not incs:
-                    # the increment written out as a field update of the returned element
-                    steps = [O.refcount_delta(off["refcount"], e) for e in pa.events if e.kind == "store" and ptr_key(e.args[0])[0] == pa.ret]
-                    ok = steps == [1] and isinstance(pa.ret, tuple) and pa.ret[0] == "ld"
-                chk.ob("C04.contract", "%s path %d: returns the element with exactly one new reference" % (name, k), ok,
-                       "%s:%d" % (f.file, f.line), fn=name, key="%s:ref:%d" % (name, k),
-                       detail="" if ok else "%d increments; returns %r" % (len(incs), pa.ret))
-            nA += 1
-    chk.floor("C04.contract", "operation paths", nA, 25)
+    check_contracts(chk, "C04.contract", prog, eff, cache, off)
 
     # ---- refcount writers -----------------------------------------------------
     nw = 0
@@ -198,6 +90,9 @@ def run(ctx, chk):
     chk.rule("C04.covered", "a slot that receives a counted reference lies below the container's element count when the writing "
                             "function returns (the release routine walks exactly [0, count))")
     check_covered(chk, "C04.covered", prog, eff, cache)
+    chk.rule("C04.slot-init", "a pair slot that becomes counted has every pointer member (key and value) written on that path: the "
+                              "release routine reads both and drops whatever non-NULL value it finds")
+    check_slot_init(chk, "C04.slot-init", prog, eff, cache)
 
     # ---- (C) library as client ------------------------------------------------------
     check_balance(chk, "C04.client", prog, eff, cache, N, B, ctors, floor=60)
@@ -226,6 +121,14 @@ def run(ctx, chk):
     check_blocks(chk, "C04.blocks", prog, cache, floor=26)
     chk.rule("C04.no-bypass", "no block is released through libc behind the installed allocator's back")
     rules.check_no_bypass(chk, "C04.no-bypass", prog)
+    chk.rule("C04.declared-effects", "a function whose prototype promises `pure` / `const` to the client's compiler neither stores outside its frame "
+             "nor allocates, releases or calls back (a reference-taking function promised as pure would have its calls merged: two references handed out, one counted)")
+    import rules as _rde
+    _rde.check_declared_effects(chk, "C04.declared-effects", prog, eff)
+    chk.rule("C04.maker-init", "every constructor writes type, reference count and data pointer of the item it returns on every successful "
+             "path (the release routine must find exactly the blocks the item owns)")
+    from props.c11 import check_makers_define_item
+    check_makers_define_item(chk, "C04.maker-init", prog, eff)
     chk.exhaustive = True
 
 
@@ -427,6 +330,123 @@ def check_release(chk, prog, eff, cache, ctors, off, R="C04.release", RX="C04.re
     chk.floor(R, "zero-count paths", nz, 14)
 
 
+def check_contracts(chk, rule, prog, eff, cache, off):
+    """(A) contracts of the operations that take or hand out references: on success exactly one reference and one slot, on
+    failure nothing; a getter returns the element with exactly one new reference; a replace releases the displaced element
+    exactly once.  Quantified over every path of those operations."""
+    # ---- (A) contracts -----------------------------------------------------
+    nA = 0
+    for name, takes in O.TAKES_REF.items():
+        f = prog.fn(name)
+        where = "%s:%d" % (f.file, f.line)
+        for j, how in takes.items():
+            A = ("arg", j)
+            for k, pa in enumerate(cache.get(name)):
+                eff_n = 0
+                cond = []
+                stores = 0
+                for e in pa.events:
+                    if e.kind == "call" and e.ckind == "lib":
+                        if e.callee == "cbor_incref" and e.args[0] == A:
+                            eff_n += 1
+                        elif e.callee in ("cbor_move", "cbor_intermediate_decref") and e.args[0] == A:
+                            eff_n -= 1
+                        elif e.callee == "cbor_decref" and e.extra and e.extra["pointee"][0] == A:
+                            eff_n -= 1
+                        elif e.callee in O.TAKES_REF:
+                            for kk, hh in O.TAKES_REF[e.callee].items():
+                                if kk < len(e.args) and e.args[kk] == A:
+                                    if hh == "always":
+                                        eff_n += 1
+                                        stores += 1
+                                    elif _truth(pa.st, e.res) is True or (hh == "nonnull" and pa.st.known_nonnull(e.res)):
+                                        eff_n += 1
+                                        stores += 1
+                                    elif _truth(pa.st, e.res) is False or (hh == "nonnull" and pa.st.known_null(e.res)):
+                                        pass
+                                    else:
+                                        cond.append(e.res)
+                    elif e.kind == "store" and (e.args[1] == A or _alias_of(pa, e.args[1]) == A):
+                        if ptr_key(e.args[0])[0][0] != "alloca":
+                            stores += 1
+                    elif e.kind == "store" and ptr_key(e.args[0])[0] == A:
+                        d_ = O.refcount_delta(off["refcount"], e)
+                        if d_ is not None:
+                            eff_n += d_   # incref / move written out as a field update
+                # classify outcome
+                if how == "always":
+                    success = True
+                elif how == "bool":
+                    success = True if pa.ret == ("c", 1) else (False if pa.ret == ("c", 0) else None)
+                    if success is None and isinstance(pa.ret, tuple) and pa.ret[0] == "call" and pa.ret[1] in prog.funcs:
+                        # delegated to a callee that cannot fail (all of its paths return true)
+                        if all(q.ret == ("c", 1) for q in cache.get(pa.ret[1])):
+                            success = True
+                            cond = [c for c in cond if c != pa.ret]
+                            if any(e.kind == "call" and e.res == pa.ret and any(kk < len(e.args) and e.args[kk] == A for kk in O.TAKES_REF.get(e.callee, {}))
+                                   for e in pa.events):
+                                eff_n += 1
+                                stores += 1
+                else:
+                    success = False if pa.ret == ("c", 0) else True
+                nA += 1
+                inst = "%s(arg %d) path %d" % (name, j, k)
+                if success is None:
+                    # result delegated to a nested operation: effect must be exactly that operation's conditional +1
+                    ok = cond == [pa.ret] and eff_n in (0,) or (not cond and False)
+                    # a preceding successful step for another argument (cbor_map_add: key added, value delegated) is fine
+                    chk.ob(rule, inst + ": delegates success to a nested insert", ok, where, fn=name, key="%s:%d:deleg" % (name, j),
+                           detail="" if ok else "unconditional effect %+d, conditional on %s, returns %r" % (eff_n, cond, pa.ret))
+                elif success:
+                    ok = eff_n == 1 and not cond and stores == 1
+                    chk.ob(rule, inst + ": success takes exactly one reference and one slot", ok, where, fn=name,
+                           key="%s:%d:succ:%d" % (name, j, k),
+                           detail="" if ok else "net refcount effect %+d, stored into %d slot(s)" % (eff_n, stores),
+                           path=pa.block_lines() if not ok else None)
+                else:
+                    ok = eff_n == 0 and not cond and stores == 0
+                    chk.ob(rule, inst + ": failure leaves the argument untouched", ok, where, fn=name,
+                           key="%s:%d:fail:%d" % (name, j, k),
+                           detail="" if ok else "net refcount effect %+d, stored into %d slot(s) although failure is reported" % (eff_n, stores),
+                           path=pa.block_lines() if not ok else None)
+    # replace: displaced element released once on success
+    f = prog.fn("cbor_array_replace")
+    for k, pa in enumerate(cache.get("cbor_array_replace")):
+        if pa.ret != ("c", 1):
+            continue
+        rel = [e for e in pa.calls("cbor_intermediate_decref")] + [e for e in pa.calls("cbor_decref")]
+        slot_stores = [e for e in pa.events if e.kind == "store" and e.args[1] != ("c", 0) and ptr_key(e.args[0])[0][0] == "idx"]
+        ok = len(rel) == 1 and len(slot_stores) == 1
+        if ok:
+            # the released value was loaded from the very slot that is overwritten
+            r = rel[0].args[0]
+            ok = r[0] == "ld" and r[1] == ptr_key(slot_stores[0].args[0])[0]
+        chk.ob(rule, "cbor_array_replace path %d: displaced element released exactly once" % k, ok, "%s:%d" % (f.file, f.line),
+               fn=f.name, key="replace:%d" % k)
+        nA += 1
+    # getters
+    for name in GETTERS_OWNED:
+        f = prog.fn(name)
+        for k, pa in enumerate(cache.get(name)):
+            incs = pa.calls("cbor_incref")
+            if pa.ret == ("c", 0):
+                ok = not incs
+                chk.ob(rule, "%s path %d: refusal takes no reference" % (name, k), ok, "%s:%d" % (f.file, f.line), fn=name,
+                       key="%s:null:%d" % (name, k))
+            else:
+                ok = len(incs) == 1 and pa.ret == incs[0].res and incs[0].args[0][0] == "ld"
+                if not incs:
+                    # the increment written out as a field update of the returned element
+                    steps = [O.refcount_delta(off["refcount"], e) for e in pa.events if e.kind == "store" and ptr_key(e.args[0])[0] == pa.ret]
+                    ok = steps == [1] and isinstance(pa.ret, tuple) and pa.ret[0] == "ld"
+                chk.ob(rule, "%s path %d: returns the element with exactly one new reference" % (name, k), ok,
+                       "%s:%d" % (f.file, f.line), fn=name, key="%s:ref:%d" % (name, k),
+                       detail="" if ok else "%d increments; returns %r" % (len(incs), pa.ret))
+            nA += 1
+    chk.floor(rule, "operation paths", nA, 25)
+
+
+
 def check_covered(chk, rule, prog, eff, cache, floor=4):
     """Release coverage: the release routine walks the slots [0, count) of a container (C04.release), so a slot that
     receives a counted reference must lie below the element count when the writing function returns.  For every path
@@ -483,6 +503,52 @@ def check_covered(chk, rule, prog, eff, cache, floor=4):
                        e.ins.loc(), fn=f.name, key="%s:covered:%d" % (f.name, e.ins.id), detail="" if ok else why,
                        path=pa.block_lines() if not ok else None)
     chk.floor(rule, "slot stores of newly referenced values", n, floor)
+
+
+def check_slot_init(chk, rule, prog, eff, cache, floor=2):
+    """Release reads every pointer member of every counted slot (key, and value when non-NULL): a slot of a struct
+    element type that becomes counted - the count location moves from i to i + 1 on the path - must have EVERY pointer
+    member of slot i written on that path (a bulk clear counts only if it provably starts at slot i or at the old
+    capacity's first byte and is not relied upon across calls).  A member left as the allocator returned it is a
+    reference the library never took but will release."""
+    n = 0
+
+    def plus1(i):
+        return (("op", "add", "i64", ("c", 1), i), ("op", "add", "i64", i, ("c", 1)))
+
+    for f in prog.lib_funcs():
+        if f.name in ("cbor_decref", "cbor_incref", "cbor_intermediate_decref", "cbor_move"):
+            continue
+        for k, pa in enumerate(cache.get(f.name, inline_static=True)):
+            slots = {}
+            for e in pa.events:
+                if e.kind != "store":
+                    continue
+                b, o = ptr_key(e.args[0])
+                if isinstance(b, tuple) and b[0] == "idx" and b[3] and isinstance(b[2], str) and b[2].startswith("%struct.") and not b[2].endswith("*"):
+                    i = b[3][-1]
+                    while isinstance(i, tuple) and i[0] == "cast":
+                        i = i[3]
+                    slots.setdefault((b[2], i), (e, set()))[1].add(o)
+            for (ty, i), (e, offs) in slots.items():
+                if not (isinstance(i, tuple) and i[0] == "ld"):
+                    continue
+                counted = any(x.kind == "store" and ptr_key(x.args[0]) == (i[1], i[2]) and x.args[1] in plus1(i) for x in pa.events)
+                if not counted:
+                    continue
+                try:
+                    members = prog.struct_members(ty[len("%struct."):])
+                except AnalysisBroken:
+                    continue
+                need = {m["offset_bits"] // 8: m["name"] for m in members if m["type"].endswith("*")}
+                missing = [nm for o_, nm in sorted(need.items()) if o_ not in offs]
+                n += 1
+                chk.ob(rule, "%s path %d: every pointer member of the %s slot that becomes counted is written" % (f.name, k, ty[len("%struct."):]),
+                       not missing, e.ins.loc(), fn=f.name, key="%s:slotinit:%d" % (f.name, e.ins.id),
+                       detail="" if not missing else "member %s of the new slot keeps whatever the allocator returned; the release routine reads it "
+                                                     "(and drops a reference the library never took when it is not NULL)" % ", ".join(missing),
+                       path=pa.block_lines() if missing else None)
+    chk.floor(rule, "struct slots that become counted", n, floor)
 
 
 def _canon(t):
